@@ -68,9 +68,19 @@ class DataFrame(Entity, DataSet):
             new_da.append(row_tuple)
         farr = np.ascontiguousarray(new_da, dtype=dt)
         units = self.units
-        del self._h5group.group['data']
-        self._h5group.create_dataset("data", (len(farr),), dt)
-        self.write_direct(farr)
+        # build the widened dataset beside the old one and swap them only
+        # when it is complete, so a column that cannot be stored is refused
+        # without destroying the table
+        grp = self._h5group.group
+        try:
+            newds = self._h5group.create_dataset("data.new", (len(farr),), dt)
+            newds.write_data(farr)
+        except Exception:
+            if "data.new" in grp:
+                del grp["data.new"]
+            raise
+        del grp['data']
+        grp.move("data.new", "data")
         if units is not None:
             # keep one unit entry per column (the new column has no unit)
             self.units = list(units) + [None]
